@@ -1,4 +1,5 @@
 import EinxModel.Proofs.Elab
+import EinxModel.Elab.Spec
 /-!
 # Helper lemmas for Props/C03Elab.lean: outcome classes of the `_parse_op` model
 
@@ -7,12 +8,6 @@ result or one of those.  Everything here is about `Einx.Elab.parseOpTree` (the d
 -/
 namespace Einx.Elab
 open Einx.Notation
-
-/-- The outcomes of the model that stand for `raise SemanticError(...)` in `_parse_op` (one constructor per raise site). -/
-def PErr.isSemantic : PErr → Bool
-  | .concatNotAllowed | .concatBrackets | .noArrow | .inputCount .. | .outputCount .. | .noUniqueParent | .notOneBracket
-  | .bracketsNotAllowed .. | .bracketsRequired .. | .markDuplicate _ | .outputDuplicate | .bracketDuplicate => true
-  | .syntax _ | .elReparse _ | .internal _ => false
 
 /-- A result, or a `SemanticError`. -/
 def NonInternal {α : Type} : PRes α → Prop
@@ -159,15 +154,6 @@ theorem updateAtIns_length (eins : List Expr) (h : (updateAtIns eins).length = e
   cases eins with
   | nil => simp [updateAtIns] at h
   | cons a as => simp
-
-/-- The flag sets under which the tree-mode model has no internal outcome: a valid `implicit_output` (the positional form only
-    as `update_at` uses it), and automatic marking only for families whose signature has exactly one output. -/
-def flagsSafe (fam : Family) (fl : Flags) : Bool :=
-  (match fl.implicit with
-   | .none | .bijective => true
-   | .index i => i == 0 && fam == .updateAt
-   | _ => false) &&
-  (!fl.markReduced || fam != .id)
 
 theorem parseOpTree_total (fam : Family) (fl : Flags) (hs : flagsSafe fam fl = true) (kd : Bool) (ins : List Expr)
     (outs : Option (List Expr)) : NonInternal (parseOpTree .tree fam fl kd ins outs) := by
